@@ -105,7 +105,9 @@ def bodies(draw):
 
 
 FIELDS = st.sampled_from([None, 'spec', 'spec.a', 'spec.a.b', 'spec.x.f', 'metadata.labels', 'metadata.labels.app',
-                          'metadata.annotations', 'status.foreign', 'data', 'spec.items', 'spec.kopf'])
+                          'metadata.annotations', 'status.foreign', 'data', 'spec.items', 'spec.kopf',
+                          # (a handler field that covers the place where status-based storages keep the framework's own records)
+                          'status.kopf'])
 
 RECORDS = st.fixed_dictionaries({}, optional={
     'started': st.just('2030-01-01T00:00:00.000000+00:00'), 'stopped': st.sampled_from([None, '2030-01-01T00:00:01+00:00']),
@@ -145,8 +147,12 @@ def scenarios(draw):
         return draw(cl_scenarios())
     if pick == 1:
         return draw(kw_scenarios())
-    return {'body': draw(bodies()), 'cfg': draw(storage_cfg()), 'other': draw(storage_cfg()),
-            'hid': draw(HANDLER_IDS), 'record': draw(RECORDS), 'fields': draw(st.lists(FIELDS, max_size=2)),
+    cfg = draw(storage_cfg())
+    fields = draw(st.lists(FIELDS, max_size=2))
+    if cfg['progress']['kind'] == 'annotations' and cfg['diffbase']['kind'] == 'status' and cfg['diffbase'].get('name') == 'kopf' and draw(st.booleans()):
+        fields = (fields + ['status.kopf'])[-2:]      # (the sub-domain in which that field is judged, see run_pure)
+    return {'body': draw(bodies()), 'cfg': cfg, 'other': draw(storage_cfg()),
+            'hid': draw(HANDLER_IDS), 'record': draw(RECORDS), 'fields': fields,
             'edit': draw(edits()), 'old': draw(st.one_of(st.none(), DICTS)), 'new': draw(st.one_of(st.none(), DICTS)),
             'reduce': draw(st.lists(KEYS, max_size=3)), 'result': draw(st.one_of(st.none(), SCALARS, DICTS)),
             'sysedit': draw(st.sampled_from(['resourceVersion', 'generation', 'managedFields', 'status', 'status.deep', 'finalizers', 'deletionTimestamp', 'ownerReferences', 'kubectl'])),
@@ -477,6 +483,18 @@ def run_case(sc):
     # (a handler field may name all annotations: the framework's own ones stay invisible all the same; a handler that asks for the
     # whole status stanza asks for the handlers' results in it too, which is why that one is not generated)
     fields = [f for f in sc['fields'] if f and f != 'status']
+    # A field that covers the framework's own corner of the status stanza is judged only where nothing but the last-handled state
+    # is kept there by this operator (annotation-based progress, status-based diff-base), and only for this operator's own writes:
+    # with status-based progress the touch marker lives there too, and other operators' records there are theirs to show.
+    own_corner = 'status.kopf' in fields
+    if own_corner and not (sc['cfg']['progress']['kind'] == 'annotations' and sc['cfg']['diffbase']['kind'] == 'status'
+                           and sc['cfg']['diffbase'].get('name', 'kopf') == 'kopf'
+                           and isinstance((body.get('status') or {}).get('kopf', {}), dict) and isinstance(body.get('status') or {}, dict)):
+        fields = [f for f in fields if f != 'status.kopf']
+        own_corner = False
+    if own_corner:
+        sc = dict(sc, writes=[w for w in sc['writes'] if not w.startswith('o:')], sysedit='resourceVersion' if str(sc.get('sysedit', '')).startswith('status') else sc.get('sysedit'))
+        res.label('handler-field-covers-the-status-diffbase')
     sc = dict(sc, fields=fields)
     try:
         base = essence_of(body, *own, fields)
